@@ -354,7 +354,16 @@ fn run_with<N: Key, Ty: EdgeType + Clone, S: BuildHasher + Default + Clone>(c: &
             Op::FromEdges => {
                 // rebuild from the edge list: isolated nodes are (by construction) not carried over
                 let list: Vec<(N, N, i32)> = g.all_edges().map(|(a, b, w)| (a, b, *w)).collect();
-                g = GraphMap::from_edges(list);
+                // three entry points for the same thing: from_edges, FromIterator, Create + Extend
+                g = match step % 3 {
+                    0 => GraphMap::from_edges(list),
+                    1 => list.into_iter().collect(),
+                    _ => {
+                        let mut h: GraphMap<N, i32, Ty, S> = petgraph::data::Create::with_capacity(1, list.len());
+                        h.extend(list);
+                        h
+                    }
+                };
                 m.nodes = m.edges.keys().flat_map(|&(a, b)| [a, b]).collect();
                 obs.label("from_edges");
             }
